@@ -12,6 +12,15 @@ theorem pres_stCl {s s' : St} {a : Act} (hI : Inv s) (h : step .repaired s a = s
   | fire t0 =>
     simp only [step] at h
     (repeat' (split at h)) <;> (try cases h) <;> (simp only [St.setPc, St.setObj]; first | (have i_stCl := hI.stCl; have i_refs := hI.refs; have i_stObj := hI.stObj; grind [holdsStore, preSpawn, PC.ref, upd, Obj.fresh]) | (have i_stCl := hI.stCl; have i_lockA := hI.lockA; have i_lockB := hI.lockB; have i_refs := hI.refs; have i_stObj := hI.stObj; have i_noCl := hI.noCl; have i_putNotSt := hI.putNotSt; grind (instances := 4000) [holdsStore, preSpawn, PC.ref, upd, Obj.fresh]))
+  | corrupt d =>
+    simp only [step] at h
+    (repeat' (split at h)) <;> (try cases h) <;> (simp only []; first | (have i_stCl := hI.stCl; have i_refs := hI.refs; have i_stObj := hI.stObj; grind [holdsStore, preSpawn, PC.ref, upd, Obj.fresh]) | (have i_stCl := hI.stCl; have i_lockA := hI.lockA; have i_lockB := hI.lockB; have i_refs := hI.refs; have i_stObj := hI.stObj; have i_noCl := hI.noCl; have i_putNotSt := hI.putNotSt; grind (instances := 4000) [holdsStore, preSpawn, PC.ref, upd, Obj.fresh]))
+  | block d =>
+    simp only [step] at h
+    (repeat' (split at h)) <;> (try cases h) <;> (simp only []; first | (have i_stCl := hI.stCl; have i_refs := hI.refs; have i_stObj := hI.stObj; grind [holdsStore, preSpawn, PC.ref, upd, Obj.fresh]) | (have i_stCl := hI.stCl; have i_lockA := hI.lockA; have i_lockB := hI.lockB; have i_refs := hI.refs; have i_stObj := hI.stObj; have i_noCl := hI.noCl; have i_putNotSt := hI.putNotSt; grind (instances := 4000) [holdsStore, preSpawn, PC.ref, upd, Obj.fresh]))
+  | repair d =>
+    simp only [step] at h
+    (repeat' (split at h)) <;> (try cases h) <;> (simp only []; first | (have i_stCl := hI.stCl; have i_refs := hI.refs; have i_stObj := hI.stObj; grind [holdsStore, preSpawn, PC.ref, upd, Obj.fresh]) | (have i_stCl := hI.stCl; have i_lockA := hI.lockA; have i_lockB := hI.lockB; have i_refs := hI.refs; have i_stObj := hI.stObj; have i_noCl := hI.noCl; have i_putNotSt := hI.putNotSt; grind (instances := 4000) [holdsStore, preSpawn, PC.ref, upd, Obj.fresh]))
   | run t0 =>
     simp only [step] at h
     split at h
